@@ -101,7 +101,7 @@ EXTRA_MODULES = {
     "C01": ["Bch.Props.C01Script"], "C04": ["Bch.Props.C04Addr"], "C05": ["Bch.Props.C05Reach"],
     "C08": ["Bch.Props.C08BloomTx", "Bch.Props.C08Cost", "Bch.Props.C08Builders"], "C10": ["Bch.Props.C10Fuel", "Bch.Props.C10Script"], "C16": ["Bch.Props.C16Tx", "Bch.Props.C16Raw"],
     "C19": ["Bch.Props.C19AnySort"], "C20": ["Bch.Props.C20All"],
-    "C07": ["Bch.Props.C07Spec"], "C11": ["Bch.Props.C11Select"], "C18": ["Bch.Props.C18Heap"], "C09": ["Bch.Props.C09Obj"], "C15": ["Bch.Props.C15New"],
+    "C07": ["Bch.Props.C07Spec"], "C11": ["Bch.Props.C11Select", "Bch.Props.C11Heap"], "C12": ["Bch.Props.C12Heap"], "C18": ["Bch.Props.C18Heap"], "C09": ["Bch.Props.C09Obj"], "C15": ["Bch.Props.C15New"],
 }
 for _k, _v in EXTRA_MODULES.items():
     PROPS[_k]["modules"] = PROPS[_k].get("modules", []) + _v
@@ -132,7 +132,7 @@ for _k, _v in TIES.items():
 # and the code found by the generator of a sibling property unties this property's theorems from the code as well
 # (e.g. an aliasing defect between sibling extended keys shows in C15's histories and invalidates the C04 model).
 SHARED = {
-    "C01": ["C02"], "C02": ["C01"], "C03": ["C02"],
+    "C01": ["C02"], "C02": ["C01"], "C03": ["C02", "C07"],
     "C04": ["C15", "C05"], "C05": ["C04", "C15"], "C15": ["C04", "C05"],
     "C08": ["C09", "C12", "C13", "C16"],
     "C09": ["C10", "C20"], "C10": ["C09"], "C20": ["C09", "C10"],
